@@ -190,8 +190,11 @@ class PandasMaterializer(FormulaMaterializer):
             return spsparse.hstack([col[1] for col in cols])
         if spec.output == "numpy":
             return numpy.stack([col[1] for col in cols], axis=1)
-        return pandas.DataFrame(
-            {col[0]: col[1] for col in cols},
+        # (keyed by position: column names need not be unique)
+        frame = pandas.DataFrame(
+            {i: col[1] for i, col in enumerate(cols)},
             index=pandas_index,
             copy=False,
         )
+        frame.columns = [col[0] for col in cols]
+        return frame
